@@ -527,6 +527,84 @@ fn run_case<T: Elem, U: Elem>(n: usize, extra_cap: usize, script: &[u64]) -> (Ve
         PREV_ORACLE.with(|o| o.borrow_mut().truncate(before_oracle));
         LOG.with(|l| *l.borrow_mut() = first_log);
     }
+    // ---- the same call made from a destructor that runs while another panic is unwinding (only scripts without a
+    // panicking item: a second panic there would abort the process): same outcome, same outputs, same calls and
+    // drops, same treatment of the allocation as in the plain call
+    if !refused && !script.iter().any(|c| c / 2 >= 3) {
+        struct InDrop<F: FnMut()>(F);
+        impl<F: FnMut()> Drop for InDrop<F> {
+            fn drop(&mut self) {
+                (self.0)()
+            }
+        }
+        struct Sentinel;
+        let first_log = log.clone();
+        LOG.with(|l| l.borrow_mut().clear());
+        CREATED_U.with(|l| l.borrow_mut().clear());
+        LAST_OUT.with(|l| l.set(None));
+        let before_oracle = PREV_ORACLE.with(|o| o.borrow().len());
+        SCRIPT.with(|s| *s.borrow_mut() = script.to_vec());
+        FREE_LOGGED.with(|f| f.set(false));
+        let mut v3: Vec<T> = Vec::with_capacity(n + extra_cap);
+        for i in 0..n {
+            v3.push(T::make(i as u64));
+        }
+        let in_ptr3 = v3.as_ptr() as usize;
+        let in_cap3 = v3.capacity();
+        WATCH_FREED.store(0, Ordering::SeqCst);
+        WATCH_PTR.store(if has_alloc { in_ptr3 } else { 0 }, Ordering::SeqCst);
+        let mut res3: Option<Result<Vec<U>, u64>> = None;
+        let mut input3 = Some(v3);
+        let outer = catch_unwind(AssertUnwindSafe(|| {
+            let _g = InDrop(|| {
+                res3 = Some(try_convert_vec_in_place::<T, U, _, u64>(input3.take().unwrap(), scripted::<T, U>));
+            });
+            std::panic::panic_any(Sentinel);
+        }));
+        IN_CONV.with(|c| c.set(false));
+        let freed3 = WATCH_FREED.load(Ordering::SeqCst);
+        WATCH_PTR.store(0, Ordering::SeqCst);
+        FREE_LOGGED.with(|f| f.set(false));
+        let mut alloc3: Option<String> = None;
+        let enc3: Vec<u64> = match res3 {
+            Some(Ok(out)) => {
+                let mut e = vec![0, out.len() as u64];
+                e.extend(out.iter().map(|u| u.id()));
+                if has_alloc && (out.as_ptr() as usize != in_ptr3 || out.capacity() != in_cap3 || freed3 != 0) {
+                    alloc3 = Some("C08: called while a panic unwinds, the conversion does not reuse the input's allocation".to_owned());
+                }
+                let mark = LOG.with(|l| l.borrow().len());
+                drop(out);
+                LOG.with(|l| l.borrow_mut().truncate(mark));
+                e
+            }
+            Some(Err(e)) => {
+                if has_alloc && freed3 != 1 {
+                    alloc3 = Some(format!("C09: called while a panic unwinds, after an error the vector's buffer was released {} times", freed3));
+                }
+                vec![1, e]
+            }
+            None => vec![3, 0],
+        };
+        let sentinel_ok = matches!(&outer, Err(p) if p.is::<Sentinel>());
+        let log3: Vec<Ev> = LOG.with(|l| l.borrow().iter().filter(|e| !matches!(e, Ev::Free)).cloned().collect());
+        let log1: Vec<Ev> = first_log.iter().filter(|e| !matches!(e, Ev::Free)).cloned().collect();
+        let k = enc.iter().position(|x| *x == 99).unwrap_or(enc.len());
+        let pid = if enc[0] == 0 { "C08" } else { "C09" };
+        if let Some(m) = alloc3 {
+            oracle.push(m);
+        }
+        if !sentinel_ok {
+            oracle.push(format!("{}: a conversion made while a panic unwinds replaced or swallowed that panic", pid));
+        }
+        if enc3[..] != enc[..k] {
+            oracle.push(format!("{}: called while a panic unwinds the conversion gives {:?} where the plain call gives {:?}", pid, enc3, &enc[..k]));
+        } else if log3 != log1 {
+            oracle.push(format!("{}: called while a panic unwinds the conversion makes other calls / drops than the plain call on the same script", pid));
+        }
+        PREV_ORACLE.with(|o| o.borrow_mut().truncate(before_oracle));
+        LOG.with(|l| *l.borrow_mut() = first_log);
+    }
     // ---- function-level events in the model's encoding
     for e in &log {
         match e {
